@@ -71,6 +71,14 @@ Theorem C11_parametric_erasure_partial :
          (Th [(x, t)] e).
 Proof. exact parametric_erasure. Qed.
 
+(* evaluation being a function, [lift] leaves open only bare runs that never produce an outcome: *)
+Theorem C11_erasure_both_terminate :
+  forall (O : orel) t1 t2 n1 n2 r1 r2,
+    (forall a b, O a b -> a <> OutOfFuel) ->
+    lift O t1 t2 ->
+    force cfg_real n1 t1 = r1 -> r1 <> OutOfFuel -> force cfg_real n2 t2 = r2 -> r2 <> OutOfFuel -> O r1 r2.
+Proof. exact lift_both_terminate. Qed.
+
 Theorem C11_fundamental :
   forall d e, wf_int d ->
     forall G T, has_ty G e T -> forall p1 p2, env_rel d G p1 p2 -> lift (OR d T) (Th p1 e) (Th p2 e).
